@@ -190,15 +190,28 @@ class F:
             f = z3.simplify(s._fp)
             if z3.is_fp_value(f) and not f.isNaN():
                 s._bits = z3.simplify(z3.fpToIEEEBV(f)).as_long()
+            elif z3.is_fp_value(f) and CONCRETE_NAN[0]:
+                # point evaluation: a NaN produced from concrete operands carries the x86 default QNaN pattern ("real indefinite")
+                s._bits = (0xFFC00000 if s.n == 32 else 0xFFF8000000000000)
             else:
-                nb = fresh('nanbits', s.n)
-                _side.append(z3.fpIsNaN(z3.fpBVToFP(nb, FSORT[s.n])))
-                s._bits = z3.If(z3.fpIsNaN(f), nb, z3.fpToIEEEBV(f))
+                # one bit pattern per FP term: the same operation on the same operands is deterministic, so structurally identical
+                # terms (hash-consed by z3) share their NaN payload symbol - keeps formulas of duplicated lanes small
+                key = f.get_id()
+                hit = _nanmemo.get(key)
+                if hit is not None and hit[0].eq(f):
+                    s._bits = hit[1]
+                else:
+                    nb = fresh('nanbits', s.n)
+                    _side.append(z3.fpIsNaN(z3.fpBVToFP(nb, FSORT[s.n])))
+                    s._bits = z3.If(z3.fpIsNaN(f), nb, z3.fpToIEEEBV(f))
+                    _nanmemo[key] = (f, s._bits)
         return s._bits
 
     def __repr__(s): return 'F%d(%s)' % (s.n, s._bits if s._bits is not None else s._fp)
 
 
+CONCRETE_NAN = [False]
+_nanmemo = {}
 _side = []   # side assumptions about fresh symbols (NaN payloads etc.); reset per Executor
 
 
@@ -237,8 +250,9 @@ class State:
 
 class Executor:
     def __init__(s, mod, assume=(), fork_timeout_ms=3000, max_unwind=70, max_steps=400000, fpmode='exact',
-                 stubs=None, max_depth=24, ubshift_mode='fresh'):
-        global _side, _fresh_log
+                 stubs=None, max_depth=24, ubshift_mode='fresh', lazy_forks=False, sym_muldiv=False, concrete_nan=False):
+        global _side, _fresh_log, _nanmemo
+        _nanmemo = {}
         _fresh_log = []; s.fresh_log = _fresh_log
         s.mod = mod
         s.regions = {}
@@ -246,6 +260,9 @@ class Executor:
         s.obligs = []      # (kind, pc(list), cond, info)
         s.ub = []          # (cond BoolRef, text)
         s.ubshift_mode = ubshift_mode; s.cur_ins = None; s.ubchoice = {}
+        s.sym_muldiv = sym_muldiv
+        CONCRETE_NAN[0] = bool(concrete_nan)
+        s.lazy_forks = lazy_forks     # explore both sides of every symbolic branch without asking the solver (infeasible paths only cost time: every obligation carries its path condition)
         s.ubvals = []      # (fresh var, [candidate x86 results]) for out-of-range shifts
         s.writes = []      # caller-memory stores in program order: (pc, rid, offset, nbytes, value bits)
         s.accesses = []    # (pc, addr BV64, nbytes, align, 'r'|'w', rid, off)
@@ -649,7 +666,8 @@ class Executor:
         if fmf and not (s.fpmode == 'token' and op == 'fadd' and set(fmf) <= {'reassoc', 'contract'}):
             s.fmf_seen.append((op, tuple(fmf)))
             return F(n, bits=fresh('fastmath', n))
-        if s.fpmode == 'abstract':
+        if s.fpmode == 'abstract' or (s.fpmode == 'mixed' and op not in ('fadd', 'fsub')):
+            # mixed mode (termination analysis): additions/subtractions - the loop-control arithmetic - stay exact, the rest is abstract
             return s.fp_abstract(op, n, args)
         if s.fpmode == 'token':
             return s.fp_token(op, n, args)
@@ -679,7 +697,30 @@ class Executor:
         nanp = lambda b: z3.fpIsNaN(z3.fpBVToFP(b, sort))
         if op == 'fsub':
             op = 'fadd'; bits[1] = bits[1] ^ z3.BitVecVal(1 << (n - 1), n)
-        if op in ('fadd', 'fmul'):
+        if op == 'fadd':
+            a, b = bits
+            lo = z3.If(z3.ULE(a, b), a, b); hi = z3.If(z3.ULE(a, b), b, a)
+            r = s.fp_uf(op, n, 2)(lo, hi)
+            s.side.append(z3.Implies(z3.Or(nanp(a), nanp(b)), nanp(r)))
+            return F(n, bits=r)
+        if op in ('fmul', 'fdiv') and s.sym_muldiv:
+            # IEEE multiplication / division are exactly sign-symmetric for non-NaN results: op(a,b) = sign(a)^sign(b) applied to op(|a|,|b|).
+            # The magnitude is an uninterpreted function of the magnitudes (commutative canonical form for mul); a NaN result keeps an
+            # unconstrained bit pattern that may depend on the signed operands (payload / sign of a NaN are outside the model)
+            a, b = bits
+            sb = z3.BitVecVal(1 << (n - 1), n); ab = z3.BitVecVal((1 << (n - 1)) - 1, n)
+            ma, mb = a & ab, b & ab
+            if op == 'fmul':
+                lo = z3.If(z3.ULE(ma, mb), ma, mb); hi = z3.If(z3.ULE(ma, mb), mb, ma)
+                m = s.fp_uf('fmulabs', n, 2)(lo, hi)
+            else:
+                m = s.fp_uf('fdivabs', n, 2)(ma, mb)
+            nn = s.fp_uf(op + 'nan', n, 2)(a, b)
+            s.side.append(z3.Implies(z3.Or(nanp(a), nanp(b)), nanp(m)))
+            s.side.append(z3.Or(nanp(m), (m & sb) == 0))
+            s.side.append(nanp(nn))
+            return F(n, bits=z3.If(nanp(m), nn, m | ((a ^ b) & sb)))
+        if op == 'fmul':
             a, b = bits
             lo = z3.If(z3.ULE(a, b), a, b); hi = z3.If(z3.ULE(a, b), b, a)
             r = s.fp_uf(op, n, 2)(lo, hi)
@@ -930,20 +971,69 @@ class Executor:
             s.ipd_cache[f.name] = llir.postdominators(f)
         return s.ipd_cache[f.name]
 
+    def cyclic_blocks(s, f):
+        """blocks of f that lie on a cycle of the control-flow graph"""
+        c = getattr(f, '_cyclic', None)
+        if c is None:
+            succ = {b: list(f.blocks[b].succs) for b in f.order}
+            c = set()
+            for b0 in f.order:
+                seen = set(); st = list(succ[b0])
+                while st:
+                    x = st.pop()
+                    if x == b0: c.add(b0); break
+                    if x in seen or x not in succ: continue
+                    seen.add(x); st.extend(succ[x])
+            f._cyclic = c
+        return c
+
     def feasible(s, pc, cond):
-        """-> (can_be_true, can_be_false) using the solver; unknown counts as feasible"""
-        if s.solver is None:
-            s.solver = z3.Solver()
-            s.solver.set('timeout', s.fork_timeout_ms)
-        sol = s.solver
-        sol.push()
-        for a in s.assume: sol.add(a)
-        for a in s.side: sol.add(a)
-        for a in pc: sol.add(a)
-        sol.push(); sol.add(cond); t = sol.check() != z3.unsat; sol.pop()
-        sol.push(); sol.add(z3.Not(cond)); f = sol.check() != z3.unsat; sol.pop()
-        sol.pop()
+        """-> (can_be_true, can_be_false) using the solver; unknown counts as feasible.
+        Side facts (theorems about uninterpreted FP applications) are added only when the functions they talk about occur in the
+        query (transitively): dropping a side fact only weakens the premises, so 'infeasible' stays sound."""
+        # a fresh (non-incremental) solver per query: z3's incremental core skips the preprocessing tactics and is ~50x slower on
+        # these mixed FP / bit-vector / UF queries
+        common = list(s.assume)
+        need = set()
+        for a in list(pc) + [cond]: need |= s._ufs(a)
+        if need and s.side:
+            changed = True; inc = [False] * len(s.side)
+            while changed:
+                changed = False
+                for i, a in enumerate(s.side):
+                    if inc[i]: continue
+                    u = s._ufs(a)
+                    if u & need:
+                        inc[i] = True; need |= u; changed = True
+            common += [a for i, a in enumerate(s.side) if inc[i]]
+        common += list(pc)
+        def chk(c):
+            sol = z3.Solver(); sol.set('timeout', s.fork_timeout_ms)
+            sol.add(*common); sol.add(c)
+            return sol.check()
+        r1 = chk(cond); t = r1 != z3.unsat
+        r2 = chk(z3.Not(cond)); f = r2 != z3.unsat
+        if r1 == z3.unknown or r2 == z3.unknown: s.fork_unknown = getattr(s, 'fork_unknown', 0) + 1
         return t, f
+
+    def _ufs(s, e):
+        """names of the uninterpreted functions (arity > 0) applied in e (memoised per AST id)"""
+        memo = s.__dict__.setdefault('_ufs_memo', {})
+        i = e.get_id()
+        r = memo.get(i)
+        if r is not None: return r[0]
+        out = set(); seen = set(); st = [e]
+        while st:
+            x = st.pop()
+            j = x.get_id()
+            if j in seen: continue
+            seen.add(j)
+            if z3.is_app(x):
+                d = x.decl()
+                if d.kind() == z3.Z3_OP_UNINTERPRETED and d.arity() > 0: out.add(d.name())
+                st.extend(x.children())
+        memo[i] = (frozenset(out), e)
+        return memo[i][0]
 
     def run(s, fname, args):
         f = s.mod.funcs[fname]
@@ -1072,7 +1162,9 @@ class Executor:
 
     def fork(s, f, st, b, c, labels, frame):
         s.forks += 1
-        t_ok, f_ok = s.feasible(st.pc, c)
+        # lazy mode: branches inside cycles of the CFG (loop tests and everything in loop bodies) are explored on both sides without
+        # asking the solver; branches outside loops (which guard e.g. recursive calls) are still checked
+        t_ok, f_ok = (True, True) if (s.lazy_forks and b.name in s.cyclic_blocks(f)) else s.feasible(st.pc, c)
         if t_ok and not f_ok:
             st.pc.append(c); s.goto(st, labels[0]); return st
         if f_ok and not t_ok:
